@@ -1,5 +1,6 @@
 \* totality of the unpacker: every input over {00,01,40,80,ff} of length <= 3, any 2 reads
 CONSTANTS Items <- MC_None
+          FirstItems <- MC_None
           Caps = {}
           MaxW = 0
           ReadOps <- MC_ReadOps
